@@ -182,11 +182,9 @@ pub fn exec<W: World>(mk: &dyn Fn() -> W, prop: &str, choices: &[usize]) -> Exec
         crate::simk::shutdown();
         crate::talloc::disarm();
     } else if !violations.is_empty() || bad_choice {
-        let r = catch_unwind(AssertUnwindSafe(|| {
-            let _ = world.finish();
-        }));
-        let _ = r;
-        take_panic();
+        // The world broke a property: its state can't be trusted enough to
+        // run destructors on it. Leak it.
+        std::mem::forget(world);
         crate::simk::shutdown();
         crate::talloc::disarm();
     } else {
